@@ -51,3 +51,20 @@ add("C07", "exploration",
     "known finding (sub-1e-6 non-monotonicity in d at kd=5). Held-on-K-executions.",
     "g=9.81; oracle true_k by bisection; d-monotonicity required only above 1e-6 relative",
     "runtime residual monitors over seeded and adversarial sweeps + bounds-checked JIT in thorough", "4/C07")
+add("C13", "exploration",
+    "Seeded datasets/spectra x grids x targets (nodes, end points, mid points, outside, datetime forms) judged "
+    "against an explicit-search reference with the NaN/half-weight rule, scipy RegularGridInterpolator for "
+    "multi-coordinate grids, and derived monitors (bitwise at nodes, between neighbours, exact for linear data, "
+    "nearest picks the nearer neighbour, pass-through identical). One recorded known finding (outside target "
+    "poisons inside targets in multi-coordinate calls). Held-on-K-executions.",
+    "node-level NaN rule for rank>1 (NaN patterns generated as whole nodes); exact ties (t=1/2, valid weight = 1/2) accept either outcome",
+    "differential monitoring against independent reference implementations over seeded hostile inputs", "4/C13")
+add("C14", "exploration",
+    "Periodic coordinates judged against linear interpolation on the period-extended grid (targets to +-1000, "
+    "+360k shifts), angular data judged by on-shorter-arc / node / bisector / range monitors with hostile jumps "
+    "(just below and above 180, both senses), interpolate_periodic / data frames / tracks against exact "
+    "shortest-arc linear, gridded data at antimeridian-crossing track points against a tri-linear reference on the "
+    "longitude-extended grid. Held-on-K-executions.",
+    "angular tolerance 3e-5 deg / resultant length (complex64 accumulator); jumps of exactly 180 excluded; "
+    "longitude data range not judged (only equivalence modulo 360)",
+    "differential + geometric (arc membership) monitors over seeded hostile angular workloads", "4/C14")
